@@ -408,27 +408,87 @@ def rule_levels(chk):
                 good="derives on a fresh copy; receiver's list untouched", fail="; ".join(problems))
 
 
+
+def is_root_ctor(ctx, f, n):
+    """n is a direct construction of a root action: Action(<logger>, <uuid>, TaskLevel(level=[]), ...) -> the uuid expression (or True)"""
+    acls = ctx.cls("_action", "Action")
+    tlcls = ctx.cls("_action", "TaskLevel")
+    init = acls.find_method("__init__")
+    if not (isinstance(n, ast.Call) and init in ctx.targets(f, n)):
+        return None
+    args = list(n.args)
+    lvl = args[2] if len(args) > 2 else next((k.value for k in n.keywords if k.arg == "task_level"), None)
+    uu = args[1] if len(args) > 1 else next((k.value for k in n.keywords if k.arg == "task_uuid"), None)
+    if lvl is None:
+        return None
+    from .. import exprs as X
+    lvl = X.inline(f, lvl)
+    ok = isinstance(lvl, ast.Call) and tlcls.find_method("__init__") in ctx.targets(f, lvl)
+    if ok:
+        a = lvl.keywords[0].value if lvl.keywords else (lvl.args[0] if lvl.args else None)
+        okl, lv = ctx.try_fold(f, a) if a is not None else (False, None)
+        ok = okl and isinstance(lv, (list, tuple)) and len(lv) == 0
+    return (uu if uu is not None else True) if ok else None
+
+
+def root_builders(ctx):
+    """private helper functions every return of which is a root construction -- directly or through another such helper"""
+    out = {}
+    changed = True
+    while changed:
+        changed = False
+        for g in ctx.p.all_funcs():
+            if g in out:
+                continue
+            rets = [r for r in iter_own_nodes(g.node) if isinstance(r, ast.Return)]
+            if not rets:
+                continue
+
+            def is_root(v):
+                if v is None:
+                    return False
+                if is_root_ctor(ctx, g, v) is not None:
+                    return True
+                if isinstance(v, ast.Call):
+                    tg = ctx.targets(g, v)
+                    return bool(tg) and all(t in out for t in tg)
+                return False
+            if all(is_root(r.value) for r in rets):
+                out[g] = [r.value for r in rets]
+                changed = True
+    return out
+
+
+def root_sites(ctx, f):
+    """call nodes in f that produce a root action: direct constructions and calls of root builders"""
+    rb = root_builders(ctx)
+    out = []
+    for n in iter_own_nodes(f.node):
+        if isinstance(n, ast.Call):
+            if is_root_ctor(ctx, f, n) is not None:
+                out.append(n)
+            else:
+                tg = ctx.targets(f, n)
+                if tg and all(t in rb for t in tg):
+                    out.append(n)
+    return out
+
+
 def rule_uuid(chk, only=None):
     ctx = chk.ctx
     acls = ctx.cls("_action", "Action")
     tlcls = ctx.cls("_action", "TaskLevel")
     init = acls.find_method("__init__")
     n_sites = 0
+    rb = root_builders(ctx)
     for f in ctx.p.all_funcs():
-        if only and f.qualname not in only:
+        if only and f.qualname not in only and f not in rb:
             continue
         for n in iter_own_nodes(f.node):
-            if not (isinstance(n, ast.Call) and init in ctx.targets(f, n)):
+            uu = is_root_ctor(ctx, f, n)
+            if uu is None:
                 continue
-            # root construction: level argument is TaskLevel(level=[])
-            args = list(n.args)
-            lvl = args[2] if len(args) > 2 else next((k.value for k in n.keywords if k.arg == "task_level"), None)
-            uu = args[1] if len(args) > 1 else next((k.value for k in n.keywords if k.arg == "task_uuid"), None)
-            is_root = isinstance(lvl, ast.Call) and tlcls.find_method("__init__") in ctx.targets(f, lvl) and (
-                (lvl.keywords and isinstance(lvl.keywords[0].value, ast.List) and not lvl.keywords[0].value.elts)
-                or (lvl.args and isinstance(lvl.args[0], ast.List) and not lvl.args[0].elts))
-            if not is_root:
-                continue
+            uu = None if uu is True else uu
             n_sites += 1
             fresh = False
             if uu is not None:
@@ -440,13 +500,7 @@ def rule_uuid(chk, only=None):
                     fail="a root action is created with task_uuid %s, which is not a uuid4() evaluated at this construction: two trees can share a uuid" % (uu is not None and unparse(uu)))
     # start_task always begins a new tree: its Action is built at the empty root level
     st_ = ctx.func("_action", "startTask")
-    roots = 0
-    for n in iter_own_nodes(st_.node):
-        if isinstance(n, ast.Call) and init in ctx.targets(st_, n) and len(n.args) > 2:
-            lvl = n.args[2]
-            if isinstance(lvl, ast.Call) and ((lvl.keywords and isinstance(lvl.keywords[0].value, ast.List) and not lvl.keywords[0].value.elts)
-                                              or (lvl.args and isinstance(lvl.args[0], ast.List) and not lvl.args[0].elts)):
-                roots += 1
+    roots = len(root_sites(ctx, st_))
     chk.req(roots == 1, "C02.uuid", "startTask:root-level-is-empty", chk.where(st_), good="Action(..., TaskLevel(level=[]), ...)",
             fail="start_task does not build its action at the empty root level: the task's start message is not at position [1] and the parser never completes it")
     if not only:
@@ -466,7 +520,7 @@ def rule_exit_order(chk):
     resets = []
     if var is not None:
         uses = c04.var_uses(chk, var)
-        restoring = {f for f, n, k, c in uses if k in ("reset", "set") and f is not ex and f.cls is ex.cls and f.name not in ("__enter__", "run", "context")}
+        restoring = {f for f, n, k, c in uses if k == "reset" and f is not ex and f.name not in ("__enter__", "run", "context")}
         for f, n, k, c in uses:
             if f is ex and k == "reset":
                 nn, _m = common.node_of_call(cfg, c)
